@@ -167,6 +167,8 @@ type c14FuncInfo struct {
 	Faithful bool   `json:"faithful"` // its saved text parses back to the same parameters and body
 	Closure  bool   `json:"closure"`  // defined in an environment other than the top level
 	Escapes  bool   `json:"escapes"`  // a string literal of its body holds one of the bytes 7, 8, 11, 12
+	// constructs of its body (original tree) that the compact printer is known to write ambiguously
+	Loss []string `json:"loss,omitempty"`
 }
 
 type c14SaveRec struct {
@@ -462,6 +464,111 @@ func c14FuncPaths(path string, o object.Object, depth int, f func(path string, f
 	}
 }
 
+// ---- known ambiguities of the compact printer, as predicates over the ORIGINAL tree (astj dump form)
+
+func c14Prec(n J) int {
+	if n["k"] == "post" {
+		return precAtom
+	}
+	return nodePrec(n)
+}
+
+// c14Leftmost: the first token the printer writes for an expression ("(" when it must parenthesise the left operand).
+func c14Leftmost(n J) string {
+	switch n["k"] {
+	case "inf":
+		l := n["l"].(J)
+		if c14Prec(l) < c14Prec(n) {
+			return "("
+		}
+		return c14Leftmost(l)
+	case "asg", "idx", "dot":
+		return c14Leftmost(n["l"].(J))
+	case "call":
+		return c14Leftmost(n["f"].(J))
+	case "pre":
+		return n["op"].(string)
+	case "arr":
+		return "["
+	case "map":
+		return "{"
+	case "fn":
+		if lam, _ := n["lambda"].(bool); lam {
+			return "("
+		}
+		return "func"
+	case "int", "float":
+		if v, _ := n["v"].(string); strings.HasPrefix(v, "-") || n["k"] == "float" && strings.HasPrefix(v, "8") {
+			return "-"
+		}
+	}
+	return "w" // a word: identifier, literal, keyword
+}
+
+func c14Stmts(v any) []J {
+	var res []J
+	l, _ := v.([]any)
+	for _, x := range l {
+		if j, ok := x.(J); ok && j["k"] != "cmt" {
+			res = append(res, j)
+		}
+	}
+	return res
+}
+
+// c14LossClasses walks a dumped tree and names the known ambiguous constructs it contains.
+func c14LossClasses(n any, out map[string]bool) {
+	switch v := n.(type) {
+	case []any:
+		st := c14Stmts(v)
+		isBlock := len(st) == len(v) && len(st) > 0
+		for i, x := range st {
+			if isBlock && i > 0 {
+				switch c14Leftmost(x) {
+				case "-", "+", "(", "[", "++", "--", "!":
+					out["statement-starts-with-operator-or-bracket"] = true
+				}
+				if st[i-1]["k"] == "post" || c14EndsWithPostfix(st[i-1]) {
+					out["statement-after-postfix"] = true
+				}
+			}
+		}
+		for _, x := range v {
+			c14LossClasses(x, out)
+		}
+	case J:
+		switch v["k"] {
+		case "inf":
+			r := v["r"].(J)
+			if r["k"] == "inf" && c14Prec(r) == c14Prec(v) {
+				out["same-precedence-right-operand"] = true
+			}
+			if op := v["op"].(string); (op == "-" || op == "+") && c14Leftmost(r) == op {
+				out["sign-after-same-sign"] = true
+			}
+		case "fn":
+			if lam, _ := v["lambda"].(bool); lam || v["name"] == "" {
+				if b := c14Stmts(v["body"]); len(b) == 1 && b[0]["k"] == "asg" {
+					out["lambda-assignment-body"] = true
+				}
+			}
+		}
+		for _, c := range v {
+			c14LossClasses(c, out)
+		}
+	}
+}
+
+func c14EndsWithPostfix(n J) bool {
+	switch n["k"] {
+	case "post":
+		return true
+	case "inf", "asg":
+		return c14EndsWithPostfix(n["r"].(J))
+	}
+	return false
+}
+
 func c14ReadFileAndRemove(name string) ([]byte, error) {
 	b, err := os.ReadFile(name)
 	_ = os.Remove(name)
@@ -629,6 +736,17 @@ func c14Save(job c14Job) (rec c14SaveRec) {
 				if fn.Name != nil {
 					fi.Own = fn.Name.Literal()
 				}
+				loss := map[string]bool{}
+				c14LossClasses(dumpStmts(fn.Body), loss)
+				if (fn.Lambda || fn.Name == nil) && len(fn.Body.Statements) == 1 {
+					if b := c14Stmts(dumpStmts(fn.Body)); len(b) == 1 && b[0]["k"] == "asg" {
+						loss["lambda-assignment-body"] = true
+					}
+				}
+				for k := range loss {
+					fi.Loss = append(fi.Loss, k)
+				}
+				sort.Strings(fi.Loss)
 				rec.Funcs = append(rec.Funcs, fi)
 				plan = append(plan, c14CallPlan(path, fn)...)
 			})
